@@ -36,6 +36,9 @@ OBLIGATIONS = [
     (P + "wrong_key_or_algo", "under Unforgeable: a cookie whose cipher text was not MAC'ed under this key/algorithm is rejected and cleared"),
     (P + "rejects_cleanly_hmac", "end to end (hmac): for EVERY cookie string: no UB, rejection clears, success does not"),
     (P + "rejects_cleanly_aes", "end to end (aes): for EVERY cookie string and IV state: no UB, rejection clears, success does not"),
+    (P + "judge_generic", "the run-time judge Spec.judgeLoad holds of the model's answer for EVERY cookie and clock, for any encryptor meeting (N)(S)(I), under Unforgeable"),
+    (P + "judge_holds_hmac", "judge_generic instantiated: hmac back-end, issued = cipher texts of any list of earlier saves"),
+    (P + "judge_holds_aes", "judge_generic instantiated: aes back-end, issued = cipher texts of any earlier saves under any IVs, loading object in any IV state"),
     (P + "confidentiality_partial", "bookkeeping for confidentiality (PARTIAL; a.k.a. iv_fresh_per_object): IVs come from the entropy source at load(), once per object; block 0 of the CBC plaintext is a dummy; decrypt does not depend on the IV"),
     (P + "config_refusals", "session_pool::init refuses cbc without hmac, no method, mixed styles; every accepted signature-only configuration has a key of >= 16 bytes"),
 ]
